@@ -115,6 +115,18 @@ func replayCounterexample(prop string, r *Result, rp map[string]interface{}, ver
 		rp["replay"] = "confirmed on the real code (process panic)"
 		return true
 	}
+	if strings.Contains(text, "panic: ") && strings.Contains(text, "FAIL") {
+		// the oracle passes on the unchanged tree (tools/oracle_selfcheck.sh); here the code under test panicked
+		for _, ln := range strings.Split(text, "\n") {
+			if strings.HasPrefix(strings.TrimSpace(ln), "panic: ") {
+				rp["failing_input"] = "the public-API oracle run on the real code panicked: " + strings.TrimSpace(ln)
+				break
+			}
+		}
+		fmt.Println("  replayed on the real code:", rp["failing_input"])
+		rp["replay"] = "confirmed on the real code (the oracle, which passes on the unchanged tree, panicked)"
+		return true
+	}
 	if strings.Contains(text, "WARNING: DATA RACE") {
 		// the race detector observed the unsynchronised access on the real code
 		rp["failing_input"] = "go test -race reports a DATA RACE in " + fn + " under concurrent callers"
